@@ -197,7 +197,7 @@ def sample_square(Y, m=1, unique=True, seed=None, m_fact=5, max_rep=100,
             norms = np.sum(qm**2, axis=1)
             norms /= norms.sum()
 
-            i_cur = im[di] = rand.choice(n, size=1, p=norms)
+            i_cur = im[di] = rand.choice(n, p=norms)
             qnew[:] = qm[i_cur]
 
     if unique:
